@@ -12,12 +12,13 @@ QUICK_RUNS = 8000
 THOROUGH_MIN_RUNS = 40000
 BATCH = 100
 CASE_WALL_S = 60.0
+ISOLATE = True      # every run in a forked child: no interpreter state leaks from one simulated server to the next
 RULE = ("case = the real Arbiter.run() with 1-4 scripted stub workers (real Worker.__init__/init_process boot) on the "
         "simulated kernel under a seeded history of {worker killed by KILL/TERM/QUIT/INT, scripted worker exit with any "
         "status, boot failure (exit 3) / app load failure (exit 4), worker that ignores TERM and stops heart-beating, "
         "TTIN, TTOU, HUP with a new workers value, signal bursts, signals and worker deaths injected at a seeded "
         "system-call index of the master (SIGCHLD between fork and WORKERS insert, inside manage_workers / reap_workers)} "
-        "followed by a fault-free tail; scheduler decisions, fork order (child first), spurious select "
+        "followed by a fault-free tail; scheduler decisions, fork order (child first), pid wrap-around / reuse, spurious select "
         "wake-ups and spawn delays are drawn from the seed.  distinct = distinct event-trace shapes (actor, event kind "
         "sequence); non-trivial = the history contains at least one event")
 ASSUMPTIONS = [
@@ -79,7 +80,8 @@ def make_case(index, rng, tier):
     boot_fail = None
     if rng.randrange(12) == 0:
         boot_fail = {"age": rng.randrange(1, 8), "code": rng.choice([3, 4])}
-    bug = {"fork_child_first": rng.randrange(2) == 0, "spurious_select": rng.randrange(3) == 0, "random_spawn_delay": rng.randrange(2) == 0}
+    bug = {"fork_child_first": rng.randrange(2) == 0, "spurious_select": rng.randrange(3) == 0, "random_spawn_delay": rng.randrange(2) == 0,
+           "pid_wrap": rng.choice([0, 0, 0, 12, 16, 24])}
     return {"cfg": cfg, "events": sorted(events, key=lambda e: e["t"]), "ticks": ticks, "scripts": scripts,
             "boot_fail": boot_fail, "buggify": bug, "preempt": rng.randrange(0, 4)}
 
@@ -88,6 +90,8 @@ def run(case, choices):
     res = Result()
     sim = Sim(choices, max_steps=60000, max_time=200.0)
     sim.buggify = dict(case["buggify"])
+    if case["buggify"].get("pid_wrap"):
+        sim.pid_max = 100 + case["buggify"]["pid_wrap"]      # pid numbers wrap: a younger worker can get a smaller pid
     cfg = dict(case["cfg"])
     cfg.update({"bind": ["127.0.0.1:8000"], "pidfile": "/run/g.pid", "proc_name": "m0"})
     scripts = {int(a): dict(s) for a, s in case["scripts"].items()}
@@ -273,7 +277,7 @@ def shrink(case):
     if any(case["buggify"].values()):
         for k, v in case["buggify"].items():
             if v:
-                yield dict(case, buggify=dict(case["buggify"], **{k: False}))
+                yield dict(case, buggify=dict(case["buggify"], **{k: 0 if k == "pid_wrap" else False}))
     if case["preempt"]:
         yield dict(case, preempt=0)
     if case["boot_fail"]:
